@@ -301,6 +301,10 @@ func (r *Runner) step(i int, op Op) {
 			cls = "live"
 		}
 		expVal, wrote := r.M.Incr(op.Key, op.D)
+		iroute := ""
+		if r.Opt.Colliding[op.Key] && r.Opt.Route != nil {
+			iroute = ":via-" + r.Opt.Route(op.Key)
+		}
 		got, err := r.S.Incr(op.Key, op.D)
 		r.tracef("incr %q %d -> %d err=%v (model %d wrote=%v, key was %s)", short(op.Key), op.D, got, err, expVal, wrote, cls)
 		if err != nil {
@@ -309,7 +313,7 @@ func (r *Runner) step(i int, op Op) {
 		}
 		if got != expVal {
 			if r.Opt.Colliding[op.Key] {
-				r.softViolate(op.Key, "incr-value:colliding:"+r.relation(op.Key), "incr %q by %d returned %d, reference says %d (key was %s)", op.Key, op.D, got, expVal, cls)
+				r.softViolate(op.Key, "incr-value:colliding:"+r.relation(op.Key)+iroute, "incr %q by %d returned %d, reference says %d (key was %s)", op.Key, op.D, got, expVal, cls)
 				// re-synchronise with what the store now serves
 				it, _ := r.S.Get(op.Key)
 				if it != nil {
